@@ -42,6 +42,19 @@ class WithState:
         self.cache = "not persisted"
 
 
+class FalsyState:
+    """state that is falsy but not None: __setstate__ must still be called on load"""
+
+    def __init__(self, flag=False):
+        self.flag = flag
+
+    def __getstate__(self):
+        return self.flag
+
+    def __setstate__(self, st):
+        self.flag = st
+
+
 class Slotted:
     __slots__ = ("a", "b")
 
@@ -90,7 +103,7 @@ class MyTuple(tuple):
 
 Point = collections.namedtuple("Point", ["x", "y"])
 
-USER_CLASSES = {"Plain": Plain, "WithState": WithState, "Slotted": Slotted, "ReduceCtor": ReduceCtor, "RaisingState": RaisingState}
+USER_CLASSES = {"FalsyState": FalsyState, "Plain": Plain, "WithState": WithState, "Slotted": Slotted, "ReduceCtor": ReduceCtor, "RaisingState": RaisingState}
 
 TYPES = {"int": int, "float": float, "str": str, "list": list, "dict": dict, "tuple": tuple, "set": set, "bool": bool,
          "np.float64": np.float64, "np.int32": np.int32, "np.ndarray": np.ndarray, "Plain": Plain, "bytes": bytes, "map": map}
@@ -252,6 +265,8 @@ def build(spec, made=None):
             o = keep(WithState())
             o.payload = B(spec[2][0][1]) if spec[2] else None
             return o
+        if cls is FalsyState:
+            return keep(FalsyState(B(spec[2][0][1]) if spec[2] else False))
         if cls is Slotted:
             return keep(Slotted(*[B(v) for _, v in spec[2][:2]]))
         if cls is ReduceCtor:
